@@ -166,6 +166,7 @@ struct Hist {
     bundles: Vec<BundleState>,      // the implementation's bundle after each merge (shorter if it panicked)
     panicked: bool,
     tags: Vec<String>,
+    kinds: Option<Vec<Vec<Vec<(u8, u128)>>>>, // cache stream: which CacheAccount method produced each transition
 }
 fn retention(r: bool) -> BundleRetention { if r { BundleRetention::Reverts } else { BundleRetention::PlainState } }
 
@@ -367,7 +368,7 @@ fn gen_evm(rng: &mut Rng, thorough: bool) -> Hist {
         bundles.push(state.bundle_state.clone());
     }
     tags.push(format!("sched:{}", ["per-tx", "every-3", "random"][sched as usize]));
-    Hist { stream: "evm", in_contract: true, retain, p0, groups, refs, ts_obs, bundles, panicked, tags }
+    Hist { stream: "evm", in_contract: true, retain, p0, groups, refs, ts_obs, bundles, panicked, tags, kinds: None }
 }
 
 // ------------------------------------------------------------------------------------ cache-level stream
@@ -410,15 +411,17 @@ fn gen_cache(rng: &mut Rng, thorough: bool, churn: bool) -> Hist {
     let n_groups = if churn { rng.range(2, 6) } else { rng.range(1, if thorough { 7 } else { 5 }) } as usize;
     let sched = if churn { 1 + rng.below(2) } else { rng.below(3) };
     let mut groups = vec![]; let mut refs = vec![]; let mut ts_obs = vec![]; let mut bundles = vec![];
+    let mut kinds: Vec<Vec<Vec<(u8, u128)>>> = vec![];
     let mut panicked = false;
     let mut state = State::builder().with_bundle_update().build();
     let mut ts_direct = TransitionState::default();
     let mut bundle_direct = BundleState::default();
     for _ in 0..n_groups {
         let ntx = match sched { 0 => 1, 1 => 3, _ => rng.range(1, 5) } as usize;
-        let mut g = vec![]; let mut gr = vec![];
+        let mut g = vec![]; let mut gr = vec![]; let mut gk = vec![];
         for _ in 0..ntx {
             let mut tx: Tx = vec![];
+            let mut txk: Vec<(u8, u128)> = vec![];
             let nops = rng.range(1, 3) as usize;
             let mut used: Vec<Address> = vec![];
             for _ in 0..nops {
@@ -443,6 +446,7 @@ fn gen_cache(rng: &mut Rng, thorough: bool, churn: bool) -> Hist {
                     }
                     m
                 };
+                let mut kind: (u8, u128) = (9, 0);
                 let t: Option<TransitionAccount> = match if churn { *rng.pick(&[0u64, 3, 3, 4, 5, 5, 6, 3, 5, 8]) } else { rng.below(10) } {
                     0 | 1 | 2 => { // change
                         let mut ni = ca.account_info().unwrap_or_else(empty_info);
@@ -452,7 +456,7 @@ fn gen_cache(rng: &mut Rng, thorough: bool, churn: bool) -> Hist {
                         let st = if has_code { mk_storage(rng, &cur, false) } else { HashMap::default() };
                         cur.set_info(a, &ni);
                         for (k, s) in st.iter() { cur.set_slot(a, *k, s.present_value); }
-                        tags.push("op:change".into());
+                        tags.push("op:change".into()); kind = (0, 0);
                         Some(ca.change(ni, st))
                     }
                     3 | 4 if plain_acct && sto_empty => { // newly created contract
@@ -464,41 +468,41 @@ fn gen_cache(rng: &mut Rng, thorough: bool, churn: bool) -> Hist {
                         cur.0.remove(&a);
                         cur.set_info(a, &ni);
                         for (k, s) in st.iter() { cur.set_slot(a, *k, s.present_value); }
-                        tags.push("op:newly_created".into());
+                        tags.push("op:newly_created".into()); kind = (1, 0);
                         Some(ca.newly_created(ni, st))
                     }
-                    5 | 6 if exists || rng.chance(1, 4) => { cur.0.remove(&a); tags.push("op:selfdestruct".into()); ca.selfdestruct() }
+                    5 | 6 if exists || rng.chance(1, 4) => { cur.0.remove(&a); tags.push("op:selfdestruct".into()); kind = (2, 0); ca.selfdestruct() }
                     7 if is_empty && touch_ok => {
-                        if state_clear { cur.0.remove(&a); tags.push("op:touch_empty_eip161".into()); ca.touch_empty_eip161() }
+                        if state_clear { cur.0.remove(&a); tags.push("op:touch_empty_eip161".into()); kind = (3, 0); ca.touch_empty_eip161() }
                         else {
                             let st = HashMap::default();
                             let had = exists;
                             if !had { cur.set_info(a, &empty_info()); }
-                            tags.push("op:touch_create_pre_eip161".into());
+                            tags.push("op:touch_create_pre_eip161".into()); kind = (4, 0);
                             ca.touch_create_pre_eip161(st)
                         }
                     }
                     8 => { let amt = rng.range(1, 4) as u128; let mut ni = info.clone().unwrap_or_else(empty_info); ni.balance = ni.balance.saturating_add(U256::from(amt));
-                           cur.set_info(a, &ni); tags.push("op:increment_balance".into()); ca.increment_balance(amt) }
-                    9 if exists => { let mut ni = info.clone().unwrap(); ni.balance = U256::ZERO; cur.set_info(a, &ni); tags.push("op:drain_balance".into()); Some(ca.drain_balance().1) }
+                           cur.set_info(a, &ni); tags.push("op:increment_balance".into()); kind = (5, amt); ca.increment_balance(amt) }
+                    9 if exists => { let mut ni = info.clone().unwrap(); ni.balance = U256::ZERO; cur.set_info(a, &ni); tags.push("op:drain_balance".into()); kind = (6, 0); Some(ca.drain_balance().1) }
                     _ => None,
                 };
-                if let Some(t) = t { used.push(a); tx.push((a, t)); }
+                if let Some(t) = t { used.push(a); tx.push((a, t)); txk.push(kind); }
             }
             if direct { ts_direct.add_transitions(tx.clone()); } else { state.apply_transition(tx.clone()); }
-            g.push(tx); gr.push(cur.clone());
+            g.push(tx); gr.push(cur.clone()); gk.push(txk);
         }
         let ts = if direct { Some(ts_direct.clone()) } else { state.transition_state.clone() };
         let r = catch(|| {
             if direct { bundle_direct.apply_transitions_and_create_reverts(ts_direct.take(), retention(retain)); }
             else { state.merge_transitions(retention(retain)); }
         });
-        ts_obs.push(ts); groups.push(g); refs.push(gr);
+        ts_obs.push(ts); groups.push(g); refs.push(gr); kinds.push(gk);
         if r.is_err() { panicked = true; break; }
         bundles.push(if direct { bundle_direct.clone() } else { state.bundle_state.clone() });
     }
     tags.push(format!("sched:{}", ["per-tx", "every-3", "random"][sched as usize]));
-    Hist { stream: "cache", in_contract: true, retain, p0, groups, refs, ts_obs, bundles, panicked, tags }
+    Hist { stream: "cache", in_contract: true, retain, p0, groups, refs, ts_obs, bundles, panicked, tags, kinds: Some(kinds) }
 }
 
 /// out-of-contract stream: arbitrary transitions (any status pair); only model = code is asked
@@ -540,7 +544,7 @@ fn gen_free(rng: &mut Rng) -> Hist {
         bundles.push(bundle.clone());
     }
     let tags = vec![if panicked { "free:panicked".to_string() } else { "free:ok".to_string() }];
-    Hist { stream: "free", in_contract: false, retain, p0: Plain::default(), groups, refs, ts_obs, bundles, panicked, tags }
+    Hist { stream: "free", in_contract: false, retain, p0: Plain::default(), groups, refs, ts_obs, bundles, panicked, tags, kinds: None }
 }
 
 // ------------------------------------------------------------------------------------ observations
@@ -563,6 +567,52 @@ fn fresh_from(h: &Hist, from: usize) -> Result<BundleState, String> {
         }
         b
     })
+}
+
+/// The second half as a separately built bundle: the recorded operations of groups from.. are
+/// applied again by the real CacheAccount methods on a fresh cache loaded from the plain state
+/// after group `from` (as a State over the database after block i would), so that no status is
+/// inherited from the first half. Returns the transitions per group and the bundle.
+fn fresh_second_half(h: &Hist, from: usize) -> Option<Result<(Vec<Vec<Tx>>, BundleState), String>> {
+    let kinds = h.kinds.as_ref()?;
+    let n = h.bundles.len();
+    let mut cur = if from == 0 { h.p0.clone() } else { h.refs[from - 1].last().cloned().unwrap_or_else(|| h.p0.clone()) };
+    let mut cache: BTreeMap<Address, CacheAccount> = BTreeMap::new();
+    let mut out: Vec<Vec<Tx>> = vec![];
+    for g in from..n {
+        let mut gg = vec![];
+        for (t, tx) in h.groups[g].iter().enumerate() {
+            let mut ntx: Tx = vec![];
+            for (j, (a, rec)) in tx.iter().enumerate() {
+                let ca = cache.entry(*a).or_insert_with(|| load_cache(&cur, a));
+                let (k, amt) = kinds[g][t][j];
+                let nt = match k {
+                    0 => Some(ca.change(rec.info.clone().unwrap_or_else(empty_info), rec.storage.clone())),
+                    1 => Some(ca.newly_created(rec.info.clone().unwrap_or_else(empty_info), rec.storage.clone())),
+                    2 => ca.selfdestruct(),
+                    3 => ca.touch_empty_eip161(),
+                    4 => ca.touch_create_pre_eip161(rec.storage.clone()),
+                    5 => ca.increment_balance(amt),
+                    6 => Some(ca.drain_balance().1),
+                    _ => None,
+                };
+                if let Some(nt) = nt { ntx.push((*a, nt)); }
+            }
+            cur = h.refs[g][t].clone();
+            gg.push(ntx);
+        }
+        out.push(gg);
+    }
+    let groups = out.clone();
+    Some(catch(move || {
+        let mut b = BundleState::default();
+        for gg in out {
+            let mut ts = TransitionState::default();
+            for tx in gg { ts.add_transitions(tx); }
+            b.apply_transitions_and_create_reverts(ts, retention(h.retain));
+        }
+        b
+    }).map(|b| (groups, b)))
 }
 
 fn emit16(h: &Hist) -> String {
@@ -612,6 +662,23 @@ fn emit18(h: &Hist, rng: &mut Rng) -> String {
             _ => splits.push("None".into()),
         }
     }
+    // the same split points with the second half built on its own (no inherited statuses)
+    let mut fsplits = vec![];
+    if h.kinds.is_some() && !h.panicked {
+        for i in 1..n {
+            let b1 = h.bundles[i - 1].clone();
+            match fresh_second_half(h, i) {
+                Some(Ok((fg, b2))) => match catch(|| { let mut e = b1.clone(); e.extend(b2.clone()); e }) {
+                    Ok(e) => {
+                        let (pr, d) = zplain_reverts(&e.reverts.to_plain_state_reverts()); if d { dup = true; }
+                        fsplits.push(format!("(Some ({},{},{},{}))", zlist(fg.iter().map(|g| zlist(g.iter().map(|tx| ztx(tx))))), zbundle(&e), cs2(&e, &mut dup), pr));
+                    }
+                    Err(_) => fsplits.push("None".into()),
+                },
+                _ => fsplits.push("None".into()),
+            }
+        }
+    }
     let take = match h.bundles.last() {
         Some(b) => {
             let m = match rng.below(4) { 0 => 0, 1 => n, 2 => n + 1, _ => rng.below(n as u64 + 1) as usize };
@@ -623,7 +690,7 @@ fn emit18(h: &Hist, rng: &mut Rng) -> String {
         }
         None => "None".into(),
     };
-    format!("(mkCase18 {} {} {} {})", base(h, dup), mono, zlist(splits), take)
+    format!("(mkCase18 {} {} {} {} {})", base(h, dup), mono, zlist(splits), take, zlist(fsplits))
 }
 
 pub fn run(o: &Opts, which: u32) {
